@@ -76,3 +76,9 @@ def call_property(cls, name, obj):
 
 def symvals(path_or_none, v):
     return v
+
+
+def aidx(v):
+    """Atom index of an input variable."""
+    (m, _), = v.t.items()
+    return m[0][0]
